@@ -60,7 +60,7 @@ def schema(T, with_cons=True):
         raise ValueError(k)
     if with_cons and T.get('cons') is not None:
         from . import cons as consmod
-        obj = obj.subtype(subtypeSpec=constraint.ConstraintsIntersection(consmod.build(T['cons'])))
+        obj = obj.subtype(subtypeSpec=constraint.ConstraintsIntersection(consmod.build(T['cons'], k)))
     return apply_tags(obj, T.get('tags', ()))
 
 
